@@ -238,7 +238,10 @@ fn const_j<'tcx>(
                 (ty.builtin_deref(true), tcx.try_get_global_alloc(alloc_id))
             {
                 use rustc_middle::ty::TypeVisitableExt;
-                if a.inner().provenance().ptrs().is_empty()
+                // `&&str` (the promoted right-hand side of `name == "literal"`): the pointee is a
+                // fat pointer to the literal, which the pretty-printer can follow
+                let ref_to_str = matches!(inner.kind(), ty::Ref(_, t, _) if t.is_str());
+                if (a.inner().provenance().ptrs().is_empty() || ref_to_str)
                     && a.inner().len() <= 256
                     && !inner.has_non_region_param()
                     && inner.is_sized(tcx, typing_env)
